@@ -205,8 +205,9 @@ def gen(seed, family=None, knobs=None):
         rnd_w = random.Random(f"{seed}-{name}-more-options")
         if rnd_w.random() < 0.4:
             kw["node_scan_duration"] = rnd_w.choice([0, 1, 2, 4])
-        if rnd_w.random() < 0.4 and not any(a["type"] == "web-browser" for a in apps):
-            wb = {"type": "web-browser", "options": {"target_url": rnd_w.choice(["http://arcd.com/users/", "http://arcd.com/", "http://arcd.com/missing/"])}}
+        if rnd_w.random() < (0.85 if name.startswith("pc_") else 0.4) and not any(a["type"] == "web-browser" for a in apps):
+            # clients browse for real (most of them a page that exists): green users' requests then succeed unless something is in the way
+            wb = {"type": "web-browser", "options": {"target_url": rnd_w.choice(["http://arcd.com/users/", "http://arcd.com/", "http://arcd.com/", "http://arcd.com/missing/"])}}
             if rnd_w.random() < 0.3:
                 wb["options"]["listen_on_ports"] = ["SMB"]
             kw["applications"] = list(kw.get("applications", [])) + [wb]
@@ -347,6 +348,8 @@ def gen(seed, family=None, knobs=None):
 
     # ------------------------------------------------------------------ defender: observation space over everything
     requires_scan = {k: rnd.random() < 0.5 for k in ("file_system", "services", "applications")}
+    if knobs.get("requires_scan") is not None:
+        requires_scan = {k: bool(knobs["requires_scan"]) for k in requires_scan}
     host_obs = []
     for h in hosts:
         mh = meta_hosts[h]
@@ -382,6 +385,11 @@ def gen(seed, family=None, knobs=None):
     for key in ("num_services", "num_applications", "num_folders", "num_files", "num_nics"):
         if rnd_o.random() < 0.12:
             nodes_opts[key] = 0  # a valid count: that part of every host observation is absent
+    for key in ("ip_list", "wildcard_list", "port_list", "protocol_list"):
+        if rnd_o.random() < 0.1:
+            nodes_opts[key] = []  # nothing to encode ACL fields against: every specified field reads as 'unknown / any'
+        elif rnd_o.random() < 0.1:
+            nodes_opts[key] = nodes_opts[key][:1]
 
     def acl_overrides(d):
         if rnd_o.random() < 0.4:
@@ -470,3 +478,59 @@ def gen(seed, family=None, knobs=None):
             "include_nmne": include_nmne, "capture_nmne": capture_nmne, "flatten": flatten, "masking": masking,
             "requires_scan": requires_scan, "ips": ips}
     return cfg, meta
+
+
+def full_action_map(cfg, seed=0, max_actions=220):
+    """Widen the (single) proxy agent's action map of an existing scenario dict - e.g. a shipped one, whose scripted agents really
+    succeed at what they do - to every action type x component the scenario contains (same idea as the generated families).
+    Returns a deep copy; the original entries keep their indices."""
+    rnd = random.Random(f"{seed}-full-action-map")
+    cfg = copy.deepcopy(cfg)
+    agent = next(a for a in cfg["agents"] if a.get("type") == "proxy-agent")
+    amap = agent["action_space"]["action_map"]
+    have = {(v["action"], repr(sorted((v.get("options") or {}).items(), key=str))) for v in amap.values()}
+    extra = []
+
+    def add(a, o):
+        k = (a, repr(sorted(o.items(), key=str)))
+        if k not in have:
+            have.add(k)
+            extra.append({"action": a, "options": o})
+
+    for node in cfg["simulation"]["network"]["nodes"]:
+        h, t = node["hostname"], node.get("type")
+        if t in ("computer", "server", "printer"):
+            for a in ("node-os-scan", "node-shutdown", "node-startup", "node-reset"):
+                add(a, {"node_name": h})
+            for sv in [x["type"] for x in node.get("services", [])] + ["dns-client"]:
+                for v in SERVICE_VERBS:
+                    add(f"node-service-{v}", {"node_name": h, "service_name": sv})
+            for ap in [x["type"] for x in node.get("applications", [])] + ["web-browser"]:
+                for v in APP_VERBS:
+                    if v == "execute" and ap in ("c2-server", "nmap"):
+                        continue
+                    add(f"node-application-{v}", {"node_name": h, "application_name": ap})
+            add("host-nic-disable", {"node_name": h, "nic_num": 1})
+            add("host-nic-enable", {"node_name": h, "nic_num": 1})
+            add("node-file-create", {"node_name": h, "folder_name": "new", "file_name": "n.txt"})
+            add("node-file-delete", {"node_name": h, "folder_name": "new", "file_name": "n.txt"})
+            fols = {f["folder_name"]: [x["file_name"] for x in f.get("files", [])] for f in node.get("folders", [])}
+            if any(x["type"] == "database-service" for x in node.get("services", [])):
+                fols.setdefault("database", ["database.db"])
+            for fo, files in fols.items():
+                for v in FOLDER_VERBS:
+                    add(f"node-folder-{v}", {"node_name": h, "folder_name": fo})
+                for fi in files:
+                    for v in FILE_VERBS:
+                        add(f"node-file-{v}", {"node_name": h, "folder_name": fo, "file_name": fi})
+        elif t in ("router", "switch", "firewall"):
+            add("node-shutdown", {"node_name": h})
+            add("node-startup", {"node_name": h})
+            add("network-port-disable", {"target_nodename": h, "port_num": 1})
+            add("network-port-enable", {"target_nodename": h, "port_num": 1})
+    rnd.shuffle(extra)
+    nxt = max(amap) + 1
+    for e in extra[: max(0, max_actions - len(amap))]:
+        amap[nxt] = e
+        nxt += 1
+    return cfg
